@@ -62,11 +62,16 @@ St == [kind |-> kind, ditems |-> ditems, litems |-> litems, parent |-> parent,
 Alive(s) == {n \in Nodes : s.kind[n] # "free"}
 FreeSet(s) == {n \in Nodes : s.kind[n] = "free"}
 MinOf(S) == CHOOSE x \in S : \A y \in S : x <= y
-IsDictLike(s, n) == s.kind[n] \in {"dict", "tdict", "obj", "objb", "objc"}
+IsDictLike(s, n) == s.kind[n] \in {"dict", "tdict", "obj", "objb", "objc", "objd"}
 \* "tdict": a pg.Dict bound to a value spec with one dynamic key admitting any value: it behaves like a schemaless
 \* dict (except that popitem() is refused) but takes the typed code paths (e.g. pass-through construction in clone)
 IsPlainDict(s, n) == s.kind[n] \in {"dict", "tdict"}
-IsObj(s, n) == s.kind[n] \in {"obj", "objb", "objc"}
+IsObj(s, n) == s.kind[n] \in {"obj", "objb", "objc", "objd"}
+\* "objd": class D(A) with allow_symbolic_mutation = False: instances are born sealed (the constructor seals deeply)
+\* "tlist": a pg.List bound to List(Object(Symbolic), min_size = 1): it rejects leaves and plain containers (TypeError)
+\* and refuses to become empty (ValueError); a rejected write leaves the whole tree as it was
+IsList(s, n) == s.kind[n] \in {"list", "tlist"}
+TMin == 1
 PH == 150                        \* a search-space placeholder leaf (pg.oneof)
 RF == 160                        \* an explicit reference leaf (pg.Ref to a shared non-symbolic object)
 TB == 170                        \* a tuple leaf holding a symbolic dict inside a nested tuple (a deep clone must copy it)
@@ -76,7 +81,7 @@ Opaque == {PH, RF, TB}           \* leaves that are objects of their own: every 
 DefaultOf(k, key) == IF k = "objb" /\ key = 1 THEN MISSING ELSE PNONE
 
 Slot(s, n) == IF IsDictLike(s, n) THEN {<<s.ditems[n][i][1], s.ditems[n][i][2]>> : i \in 1..Len(s.ditems[n])}
-              ELSE IF s.kind[n] = "list" THEN {<<LKey(i - 1), s.litems[n][i]>> : i \in 1..Len(s.litems[n])}
+              ELSE IF IsList(s, n) THEN {<<LKey(i - 1), s.litems[n][i]>> : i \in 1..Len(s.litems[n])}
               ELSE {}
 ChildrenOf(s, n) == {kv[2] : kv \in Slot(s, n)} \cap Nodes
 RECURSIVE Desc(_,_)
@@ -119,7 +124,7 @@ Reindex(s, n) ==
 
 NewNode(s, r, k, par, key) ==
   [s EXCEPT !.kind[r] = k, !.ditems[r] = <<>>, !.litems[r] = <<>>, !.parent[r] = par, !.pkey[r] = key,
-            !.sealed[r] = FALSE, !.accw[r] = TRUE, !.subs[r] = (k \in {"obj", "objb", "objc"})]
+            !.sealed[r] = (k = "objd"), !.accw[r] = TRUE, !.subs[r] = (k \in {"obj", "objb", "objc", "objd"})]
 
 \* Symbolic clone of the subtree at m into free ids.  Every symbolic node is copied (deep and
 \* shallow clone differ only in leaf objects, which are values here).  Flags: Dict keeps
@@ -134,7 +139,7 @@ CloneIntoS(s, m, inh) ==       \* returns [s, root]; caller guarantees enough fr
       s0 == [NewNode(s, r, s.kind[m], NULL, NULL) EXCEPT
                !.sealed[r] = sl,
                !.accw[r] = s.accw[m],
-               !.subs[r] = IF s.kind[m] = "list" THEN FALSE ELSE s.subs[m]]
+               !.subs[r] = IF IsList(s, m) THEN FALSE ELSE s.subs[m]]
   IN IF IsDictLike(s, m) THEN
        LET F[i \in 0..Len(s.ditems[m])] ==
              IF i = 0 THEN s0
@@ -155,7 +160,7 @@ CloneIntoS(s, m, inh) ==       \* returns [s, root]; caller guarantees enough fr
        IN [s |-> F[Len(s.litems[m])], root |-> r]
 CloneInto(s, m) == CloneIntoS(s, m, FALSE)
 
-ShapeNeed(vd) == IF vd \in {200, 201, 210, 220, 221} THEN 1 ELSE IF vd \in {211, 222} THEN 2 ELSE 0
+ShapeNeed(vd) == IF vd \in {200, 201, 210, 220, 221, 223} THEN 1 ELSE IF vd \in {211, 222} THEN 2 ELSE 0
 
 \* does storing existing node vd under (holder, key) copy it?  `ins` = the write is an insertion.
 MustCopy(s, holder, key, vd, ins) ==
@@ -165,7 +170,7 @@ MustCopy(s, holder, key, vd, ins) ==
 
 \* Turn a value descriptor into a stored value under (holder, key): [ok, s, v]
 Formalize(s, holder, key, vd, ins) ==
-  IF ~IsRef(vd) /\ vd \notin {200, 201, 210, 211, 220, 221, 222} THEN [ok |-> TRUE, s |-> s, v |-> vd]
+  IF ~IsRef(vd) /\ vd \notin {200, 201, 210, 211, 220, 221, 222, 223} THEN [ok |-> TRUE, s |-> s, v |-> vd]
   ELSE IF ~IsRef(vd) THEN
     IF Cardinality(FreeSet(s)) < ShapeNeed(vd) THEN [ok |-> FALSE, s |-> s, v |-> vd]
     ELSE LET r == MinOf(FreeSet(s)) IN
@@ -177,6 +182,9 @@ Formalize(s, holder, key, vd, ins) ==
                        IN [ok |-> TRUE, s |-> [NewNode(s1, c, "dict", r, LKey(0)) EXCEPT !.litems[r] = <<c>>], v |-> r]
         [] vd = 220 -> [ok |-> TRUE,
                         s |-> [NewNode(s, r, "obj", holder, key) EXCEPT !.ditems[r] = << <<1, PNONE>>, <<2, PNONE>> >>],
+                        v |-> r]
+        [] vd = 223 -> [ok |-> TRUE,
+                        s |-> [NewNode(s, r, "objd", holder, key) EXCEPT !.ditems[r] = << <<1, PNONE>>, <<2, PNONE>> >>],
                         v |-> r]
         [] vd = 222 -> LET s1 == NewNode(s, r, "objc", holder, key)
                            c == MinOf(FreeSet(s1))
@@ -223,25 +231,40 @@ WriteD(s, n, k, vd) ==
           IN IF old = vd /\ vd \notin Opaque THEN [ok |-> TRUE, s |-> s, ups |-> NoUpd]  \* the same (pooled) leaf object: no update; an opaque leaf is always a new object
              ELSE [ok |-> f.ok, s |-> s1, ups |-> <<Upd(n, k, old, f.v)>>]
 
+\* a write result may carry err: the call raises that error (the state in the result is what the call leaves behind)
+ErrOf(w) == IF "err" \in DOMAIN w THEN w.err ELSE "none"
+Rejected(s, e) == [ok |-> TRUE, s |-> s, ups |-> NoUpd, err |-> e]
+SymVal(vd) == IsRef(vd) \/ vd \in {220, 221, 222, 223}
+RECURSIVE PartialNode(_,_)
+PartialNode(s, n) == \E kv \in Slot(s, n) : (s.kind[n] = "objb" /\ kv[1] = 1 /\ kv[2] = MISSING) \/ (IsRef(kv[2]) /\ PartialNode(s, kv[2]))
+PartialVal(s, vd) == vd = 221 \/ (IsRef(vd) /\ PartialNode(s, vd))
+
 \* --- write primitive of a list: idx is a 0-based position (>= len appends); ins = insertion
 WriteL(s, n, idx, vd0) ==
   LET ins == IsIns(vd0)
       vd == IF ins THEN vd0 - INS ELSE vd0
       len == Len(s.litems[n])
       at == IF ins THEN ClampInsert(idx, len) ELSE IF idx >= len THEN len ELSE idx
+      typed == s.kind[n] = "tlist"
   IN IF vd = MISSING /\ at >= len THEN [ok |-> TRUE, s |-> s, ups |-> NoUpd]
      ELSE IF ~OkTarget(s, n, vd) THEN [ok |-> FALSE, s |-> s, ups |-> NoUpd]
+     \* partial values, and containers that carry a value spec of their own (refused as incompatible), in a typed list: not generated
+     ELSE IF typed /\ vd # MISSING /\ (PartialVal(s, vd) \/ (IsRef(vd) /\ s.kind[vd] \in {"tlist", "tdict"}))
+          THEN [ok |-> FALSE, s |-> s, ups |-> NoUpd]
      ELSE IF at < len /\ ~ins THEN
        LET old == s.litems[n][at + 1] IN
        IF old = vd /\ vd \notin Opaque THEN [ok |-> TRUE, s |-> s, ups |-> NoUpd]
        ELSE IF vd = MISSING THEN
+            IF typed /\ len <= TMin THEN Rejected(s, "ValueError") ELSE
             LET s0 == Detach(s, old) IN
             [ok |-> TRUE, s |-> Reindex([s0 EXCEPT !.litems[n] = RemoveIdx(@, at + 1)], n),
              ups |-> <<Upd(n, LKey(at), old, MISSING)>>]
+       ELSE IF typed /\ ~SymVal(vd) THEN Rejected(s, "TypeError")
        ELSE LET s0 == Detach(s, old)
                 f == Formalize(s0, n, LKey(at), vd, FALSE)
             IN [ok |-> f.ok, s |-> [f.s EXCEPT !.litems[n][at + 1] = f.v], ups |-> <<Upd(n, LKey(at), old, f.v)>>]
      ELSE IF len >= MaxLen THEN [ok |-> FALSE, s |-> s, ups |-> NoUpd]
+     ELSE IF typed /\ ~SymVal(vd) THEN Rejected(s, "TypeError")
      ELSE LET f == Formalize(s, n, LKey(at), vd, ins)
               s1 == [f.s EXCEPT !.litems[n] = InsertIdx(@, at + 1, f.v)]
           IN [ok |-> f.ok, s |-> Reindex(s1, n), ups |-> <<Upd(n, LKey(at), MISSING, f.v)>>]
@@ -251,14 +274,18 @@ RECURSIVE WriteLSeq(_,_,_)
 WriteLSeq(s, n, ws) ==
   IF ws = <<>> THEN [ok |-> TRUE, s |-> s, ups |-> NoUpd]
   ELSE LET a == WriteL(s, n, ws[1][1], ws[1][2]) IN
-       IF ~a.ok THEN a
-       ELSE LET b == WriteLSeq(a.s, n, Tail(ws)) IN [ok |-> b.ok, s |-> b.s, ups |-> a.ups \o b.ups]
+       IF ~a.ok \/ ErrOf(a) # "none" THEN a            \* rejected at its first write: nothing has changed
+       ELSE LET b == WriteLSeq(a.s, n, Tail(ws)) IN
+            IF ErrOf(b) # "none" THEN [ok |-> FALSE, s |-> s, ups |-> NoUpd]      \* a batch rejected after its first write: not generated
+            ELSE [ok |-> b.ok, s |-> b.s, ups |-> a.ups \o b.ups]
 RECURSIVE AppendSeq(_,_,_)
 AppendSeq(s, n, vds) ==
   IF vds = <<>> THEN [ok |-> TRUE, s |-> s, ups |-> NoUpd]
   ELSE LET a == WriteL(s, n, Len(s.litems[n]), vds[1]) IN
-       IF ~a.ok THEN a
-       ELSE LET b == AppendSeq(a.s, n, Tail(vds)) IN [ok |-> b.ok, s |-> b.s, ups |-> a.ups \o b.ups]
+       IF ~a.ok \/ ErrOf(a) # "none" THEN a
+       ELSE LET b == AppendSeq(a.s, n, Tail(vds)) IN
+            IF ErrOf(b) # "none" THEN [ok |-> FALSE, s |-> s, ups |-> NoUpd]
+            ELSE [ok |-> b.ok, s |-> b.s, ups |-> a.ups \o b.ups]
 RECURSIVE WriteDSeq(_,_,_)
 WriteDSeq(s, n, kvs) ==
   IF kvs = <<>> THEN [ok |-> TRUE, s |-> s, ups |-> NoUpd]
@@ -314,7 +341,8 @@ Fail(e) == Commit(St, Err(e), {})
 \* finish a mutating call whose writes produced `w`
 Done(w, self, ret) ==
   /\ w.ok
-  /\ Commit(w.s, Ok(ret), IF NotifyOn /\ w.ups # NoUpd THEN EventsOf(w.s, w.ups, self, TRUE) ELSE {})
+  /\ IF ErrOf(w) # "none" THEN Commit(w.s, Err(ErrOf(w)), {})
+     ELSE Commit(w.s, Ok(ret), IF NotifyOn /\ w.ups # NoUpd THEN EventsOf(w.s, w.ups, self, TRUE) ELSE {})
 
 ---------------------------------------------------------------------------
 (* Actions: pg.Dict (and the attribute view of pg.Object)                  *)
@@ -377,14 +405,14 @@ DictUpdate(n, kvs, inplaceOr) ==           \* d.update({..})   /   d |= {..}
 
 ListSet(n, i, vd) ==                       \* l[i] = v
   /\ act' = <<"ListSet", n, i, vd>>
-  /\ "list" \in Acts /\ kind[n] = "list" /\ vd # MISSING
+  /\ "list" \in Acts /\ IsList(St, n) /\ vd # MISSING
   /\ IF TreatSealed(St, n) \/ ~AccW(St, n) THEN Fail("WPE")
      ELSE LET j == NormIndex(i, Len(litems[n])) IN
           IF j < 0 THEN Fail("IndexError") ELSE Done(WriteL(St, n, j, vd), n, 0)
 
 ListDel(n, i) ==                           \* del l[i]
   /\ act' = <<"ListDel", n, i>>
-  /\ "list" \in Acts /\ kind[n] = "list"
+  /\ "list" \in Acts /\ IsList(St, n)
   /\ IF TreatSealed(St, n) \/ ~AccW(St, n) THEN Fail("WPE")
      ELSE LET j == NormIndex(i, Len(litems[n])) IN
           IF j < 0 THEN Fail("IndexError")
@@ -394,22 +422,22 @@ ListDel(n, i) ==                           \* del l[i]
 
 ListAppend(n, vd) ==                       \* l.append(v)
   /\ act' = <<"ListAppend", n, vd>>
-  /\ "list" \in Acts /\ kind[n] = "list" /\ vd # MISSING
+  /\ "list" \in Acts /\ IsList(St, n) /\ vd # MISSING
   /\ IF TreatSealed(St, n) THEN Fail("WPE") ELSE Done(WriteL(St, n, Len(litems[n]), vd), n, 0)
 
 ListInsert(n, i, vd) ==                    \* l.insert(i, v)
   /\ act' = <<"ListInsert", n, i, vd>>
-  /\ "list" \in Acts /\ kind[n] = "list" /\ vd # MISSING
+  /\ "list" \in Acts /\ IsList(St, n) /\ vd # MISSING
   /\ IF TreatSealed(St, n) THEN Fail("WPE") ELSE Done(WriteL(St, n, i, INS + vd), n, 0)
 
 ListExtend(n, vds, inplaceAdd) ==          \* l.extend([..])   /   l += [..]
   /\ act' = <<"ListExtend", n, vds, inplaceAdd>>
-  /\ (IF inplaceAdd THEN "inplace" ELSE "list") \in Acts /\ kind[n] = "list"
+  /\ (IF inplaceAdd THEN "inplace" ELSE "list") \in Acts /\ IsList(St, n)
   /\ IF TreatSealed(St, n) THEN Fail("WPE") ELSE Done(AppendSeq(St, n, vds), n, 0)
 
 ListPop(n, i) ==                           \* l.pop(i)
   /\ act' = <<"ListPop", n, i>>
-  /\ "list" \in Acts /\ kind[n] = "list"
+  /\ "list" \in Acts /\ IsList(St, n)
   /\ LET j == NormIndex(i, Len(litems[n])) IN
      IF j < 0 THEN Fail("IndexError")
      ELSE IF TreatSealed(St, n) THEN Fail("WPE")
@@ -417,7 +445,7 @@ ListPop(n, i) ==                           \* l.pop(i)
 
 ListRemove(n, v) ==                        \* l.remove(leaf)
   /\ act' = <<"ListRemove", n, v>>
-  /\ "list" \in Acts /\ kind[n] = "list" /\ ~IsRef(v)
+  /\ "list" \in Acts /\ IsList(St, n) /\ ~IsRef(v)
   /\ (TreatSealed(St, n) \/ AccW(St, n))       \* a container *method* under disabled accessors is a don't-care: not generated
   /\ LET p == FirstPos(litems[n], v) IN
      IF p = 0 THEN Fail("ValueError")
@@ -428,29 +456,31 @@ RECURSIVE ClearL(_,_)
 ClearL(s, n) == IF s.litems[n] = <<>> THEN [ok |-> TRUE, s |-> s, ups |-> NoUpd]
                 ELSE LET a == WriteL(s, n, Len(s.litems[n]) - 1, MISSING)
                          b == ClearL(a.s, n)
-                     IN [ok |-> TRUE, s |-> b.s, ups |-> b.ups \o a.ups]
+                     IN IF ErrOf(a) # "none" THEN a
+                        ELSE IF ErrOf(b) # "none" THEN [ok |-> FALSE, s |-> s, ups |-> NoUpd]
+                        ELSE [ok |-> b.ok, s |-> b.s, ups |-> b.ups \o a.ups]
 ListClear(n) ==                            \* l.clear()
   /\ act' = <<"ListClear", n>>
-  /\ "list" \in Acts /\ kind[n] = "list"
+  /\ "list" \in Acts /\ IsList(St, n)
   /\ IF TreatSealed(St, n) THEN Fail("WPE") ELSE Done(ClearL(St, n), n, 0)
 
 ListReverse(n) ==                          \* l.reverse()
   /\ act' = <<"ListReverse", n>>
-  /\ "perm" \in Acts /\ kind[n] = "list"
+  /\ "perm" \in Acts /\ IsList(St, n)
   /\ IF TreatSealed(St, n) THEN Fail("WPE")
      ELSE LET s1 == [St EXCEPT !.litems[n] = RevSeq(@)] IN
           Commit(IF Mirror THEN s1 ELSE Reindex(s1, n), Ok(0), {})
 
 ListSort(n) ==                             \* l.sort()  (leaf-only lists; others raise TypeError like list)
   /\ act' = <<"ListSort", n>>
-  /\ "perm" \in Acts /\ kind[n] = "list" /\ \A i \in 1..Len(litems[n]) : litems[n][i] \in 100..149
+  /\ "perm" \in Acts /\ IsList(St, n) /\ \A i \in 1..Len(litems[n]) : litems[n][i] \in 100..149
   /\ IF TreatSealed(St, n) THEN Fail("WPE")
      ELSE Commit([St EXCEPT !.litems[n] = SortInts(@)], Ok(0), {})
 
 \* l *= k : k <= 0 clears, k >= 2 appends (k-1) more copies of the current elements
 ListIMul(n, k) ==
   /\ act' = <<"ListIMul", n, k>>
-  /\ "inplace" \in Acts /\ kind[n] = "list"
+  /\ "inplace" \in Acts /\ IsList(St, n)
   /\ IF TreatSealed(St, n) THEN Fail("WPE")
      ELSE IF k <= 0 THEN Done(ClearL(St, n), n, 0)
      ELSE /\ Len(litems[n]) * k <= MaxLen
@@ -460,7 +490,7 @@ ListIMul(n, k) ==
 \* replaced (elements removed are detached, extra values inserted), otherwise sizes must agree.
 ListSetSlice(n, a, b, c, vds) ==
   /\ act' = <<"ListSetSlice", n, a, b, c, vds>>
-  /\ "slice" \in Acts /\ kind[n] = "list"
+  /\ "slice" \in Acts /\ IsList(St, n)
   /\ IF TreatSealed(St, n) \/ ~AccW(St, n) THEN Fail("WPE")
      ELSE LET pos == SlicePositions(a, b, c, Len(litems[n]))
               st == SliceIndices(a, b, c, Len(litems[n])) IN
@@ -479,7 +509,7 @@ ListSetSlice(n, a, b, c, vds) ==
 \* del l[a:b:c]
 ListDelSlice(n, a, b, c) ==
   /\ act' = <<"ListDelSlice", n, a, b, c>>
-  /\ "slice" \in Acts /\ kind[n] = "list"
+  /\ "slice" \in Acts /\ IsList(St, n)
   /\ IF TreatSealed(St, n) \/ ~AccW(St, n) THEN Fail("WPE")
      ELSE LET pos == SlicePositions(a, b, c, Len(litems[n]))
               desc == SortInts(pos)            \* ascending
@@ -510,7 +540,7 @@ RebindOne(s, n, path, vd) ==    \* [ok, s, ups, err]
           ELSE LET w == WriteD(s, holder, key, IF IsIns(vd) THEN vd - INS ELSE vd) IN
                [ok |-> w.ok /\ ~IsIns(vd), s |-> w.s, ups |-> w.ups, err |-> "none"]
      ELSE IF key < 1000 THEN [ok |-> FALSE, s |-> s, ups |-> NoUpd, err |-> "none"]
-     ELSE LET w == WriteL(s, holder, key - 1000, vd) IN [ok |-> w.ok, s |-> w.s, ups |-> w.ups, err |-> "none"]
+     ELSE LET w == WriteL(s, holder, key - 1000, vd) IN [ok |-> w.ok, s |-> w.s, ups |-> w.ups, err |-> ErrOf(w)]
 
 RECURSIVE RebindSeq(_,_,_)
 RebindSeq(s, n, pvs) ==
@@ -524,7 +554,7 @@ Rebind(n, pvs, notifyParents, skip) ==
   /\ act' = <<"Rebind", n, pvs, notifyParents, skip>>
   /\ "rebind" \in Acts /\ kind[n] # "free"
   /\ IF IsObj(St, n) /\ TreatSealed(St, n) THEN Fail("WPE")
-     ELSE LET ordered == IF kind[n] = "list" THEN SortPV(pvs) ELSE pvs
+     ELSE LET ordered == IF IsList(St, n) THEN SortPV(pvs) ELSE pvs
               w == RebindSeq(St, n, ordered)
           IN /\ w.ok
              \* two entries that end up writing the same location (an index past the end appends)
@@ -548,10 +578,10 @@ Construct(k, vds) ==
   /\ LET r == MinOf(FreeSet(St))
          s0 == IF k = "obj" THEN [NewNode(St, r, "obj", NULL, NULL) EXCEPT !.ditems[r] = << <<1, PNONE>>, <<2, PNONE>> >>]
                ELSE NewNode(St, r, k, NULL, NULL)
-         w == IF k = "list" THEN AppendSeq(s0, r, vds)
+         w == IF k \in {"list", "tlist"} THEN AppendSeq(s0, r, vds)
               ELSE WriteDSeq(s0, r, [i \in 1..Len(vds) |-> <<i, vds[i]>>])
      IN /\ \A i \in 1..Len(vds) : vds[i] # PNONE
-        /\ w.ok
+        /\ w.ok /\ ErrOf(w) = "none"
         /\ Commit(w.s, Ok(r), {})
 
 Clone(n, deep) ==                          \* n.clone(deep) / copy.copy / copy.deepcopy
@@ -566,8 +596,11 @@ JsonRoundTrip(n) ==                        \* pg.from_json(pg.to_json(n)): a fre
   /\ Cardinality(FreeSet(St)) >= Cardinality(Desc(St, n))
   /\ LET c == CloneInto(St, n)
          fresh == Desc(c.s, c.root)
-         s1 == [c.s EXCEPT !.kind = [m \in Nodes |-> IF m \in fresh /\ c.s.kind[m] = "tdict" THEN "dict" ELSE c.s.kind[m]],
-                           !.sealed = [m \in Nodes |-> IF m \in fresh THEN FALSE ELSE c.s.sealed[m]],
+         s1 == [c.s EXCEPT !.kind = [m \in Nodes |-> IF m \in fresh /\ c.s.kind[m] = "tdict" THEN "dict"
+                                                      ELSE IF m \in fresh /\ c.s.kind[m] = "tlist" THEN "list" ELSE c.s.kind[m]],
+                           \* a loaded tree carries the class defaults: a D is born sealed, and its constructor seals what it holds
+                           !.sealed = [m \in Nodes |-> IF m \in fresh THEN (\E a \in ({m} \cup Ancestors(c.s, m)) : c.s.kind[a] = "objd")
+                                                        ELSE c.s.sealed[m]],
                            !.accw = [m \in Nodes |-> IF m \in fresh THEN TRUE ELSE c.s.accw[m]],
                            !.subs = [m \in Nodes |-> IF m \in fresh THEN IsObj(c.s, m) ELSE c.s.subs[m]]]
      IN Commit(s1, Ok(c.root), {})
@@ -586,7 +619,7 @@ Seal(n, b) ==                              \* n.seal(b): recursive
 
 SetAccW(n, b) ==                           \* n.set_accessor_writable(b) (this node only)
   /\ act' = <<"SetAccW", n, b>>
-  /\ "flags" \in Acts /\ kind[n] \in {"dict", "tdict", "list"}
+  /\ "flags" \in Acts /\ kind[n] \in {"dict", "tdict", "list", "tlist"}
   /\ accw[n] # b
   /\ Commit([St EXCEPT !.accw[n] = b], Ok(0), {})
 
@@ -650,16 +683,21 @@ IK_ObjList == <<"obj", "list">>
 IK_ObjbDict == <<"objb", "dict">>
 IK_TDictList == <<"tdict", "list">>
 
+IK_TListDict == <<"tlist", "dict">>
+\* a typed list is never empty: an initial root of kind "tlist" starts with one A() member, which takes the id
+\* Len(InitKinds) + (id of the list)
+InitTL(n) == n <= Len(InitKinds) /\ InitKinds[n] = "tlist"
+InitTLChild(n) == n > Len(InitKinds) /\ n <= 2 * Len(InitKinds) /\ InitKinds[n - Len(InitKinds)] = "tlist"
 Init ==
-  /\ kind = [n \in Nodes |-> IF n <= Len(InitKinds) THEN InitKinds[n] ELSE "free"]
-  /\ ditems = [n \in Nodes |-> IF n <= Len(InitKinds) /\ InitKinds[n] = "obj" THEN << <<1, PNONE>>, <<2, PNONE>> >>
+  /\ kind = [n \in Nodes |-> IF n <= Len(InitKinds) THEN InitKinds[n] ELSE IF InitTLChild(n) THEN "obj" ELSE "free"]
+  /\ ditems = [n \in Nodes |-> IF (n <= Len(InitKinds) /\ InitKinds[n] \in {"obj", "objd"}) \/ InitTLChild(n) THEN << <<1, PNONE>>, <<2, PNONE>> >>
                               ELSE IF n <= Len(InitKinds) /\ InitKinds[n] = "objb" THEN << <<1, MISSING>>, <<2, PNONE>> >> ELSE <<>>]
-  /\ litems = [n \in Nodes |-> <<>>]
-  /\ parent = [n \in Nodes |-> NULL]
-  /\ pkey = [n \in Nodes |-> NULL]
-  /\ sealed = [n \in Nodes |-> FALSE]
+  /\ litems = [n \in Nodes |-> IF InitTL(n) THEN <<Len(InitKinds) + n>> ELSE <<>>]
+  /\ parent = [n \in Nodes |-> IF InitTLChild(n) THEN n - Len(InitKinds) ELSE NULL]
+  /\ pkey = [n \in Nodes |-> IF InitTLChild(n) THEN LKey(0) ELSE NULL]
+  /\ sealed = [n \in Nodes |-> n <= Len(InitKinds) /\ InitKinds[n] = "objd"]
   /\ accw = [n \in Nodes |-> TRUE]
-  /\ subs = [n \in Nodes |-> n <= Len(InitKinds)]      \* the harness gives every root it creates a callback
+  /\ subs = [n \in Nodes |-> n <= Len(InitKinds) \/ InitTLChild(n)]      \* the harness gives every root it creates a callback
   /\ sstk = <<>> /\ astk = <<>> /\ nstk = <<>>
   /\ out = Ok(0) /\ evts = {} /\ act = <<"Init">>
   /\ memo = [n \in Nodes |-> NoFacts]
@@ -685,7 +723,7 @@ NextDict(n) ==
            \/ \E kvs \in P(KVSeqs) : DictUpdate(n, kvs, FALSE))
      \/ Has("inplace") /\ IsPlainDict(St, n) /\ \E kvs \in P(KVSeqs) : DictUpdate(n, kvs, TRUE)
 NextList(n) ==
-  /\ kind[n] = "list"
+  /\ IsList(St, n)
   /\ \/ Has("list") /\
           (\/ \E i \in P(Idx), vd \in PVD : ListSet(n, i, vd) \/ ListInsert(n, i, vd)
            \/ \E i \in P(Idx) : ListDel(n, i) \/ ListPop(n, i)
@@ -706,8 +744,9 @@ NextAny(n) ==
      \/ Has("flags") /\ \E b \in P(BOOLEAN) : Seal(n, b) \/ SetAccW(n, b)
      \/ Has("forget") /\ Forget(n)
      \/ Has("facts") /\ ReadFacts(n)
+CKinds == IF "typed" \in Acts THEN {"dict", "list", "obj", "tlist"} ELSE {"dict", "list", "obj"}
 NextConstruct ==
-  Has("construct") /\ \E k \in P({"dict", "list", "obj"}), vds \in P(SeqsUpTo(VD, 2) \ {<<>>}) : Construct(k, vds)
+  Has("construct") /\ \E k \in P(CKinds), vds \in P(SeqsUpTo(VD, 2) \ {<<>>}) : Construct(k, vds)
 NextScope ==
   \/ Has("scope") /\ (\/ \E a \in P({"T", "F", "N"}) : EnterSealed(a) \/ EnterAccW(a)
                        \/ ExitSealed \/ ExitAccW)
@@ -758,7 +797,7 @@ Places(m) == UNION { {<<n, kv[1]>> : kv \in {x \in Slot(St, n) : x[2] = m}} : n 
            \* distinct positions: a list may hold the same node at two indices
 OnePlace == \A m \in Alive(St) :
               /\ Cardinality(Places(m)) <= 1
-              /\ \A n \in Alive(St) : kind[n] = "list" =>
+              /\ \A n \in Alive(St) : IsList(St, n) =>
                    Cardinality({i \in 1..Len(litems[n]) : litems[n][i] = m}) <= 1
 DetachedOK == \A m \in Alive(St) : (parent[m] # NULL) => <<parent[m], pkey[m]>> \in Places(m)
 LookupOK == \A m \in Alive(St) : Lookup(St, RootOf(St, m), RelPath(St, RootOf(St, m), m)) = m
@@ -779,6 +818,9 @@ WPEMeansUnchanged ==
 ErrorMeansUnchanged ==
   [][(out'.k \in {"IndexError", "ValueError", "TypeError"}) => UNCHANGED tree]_vars
 \* content of a node that is treated as sealed never changes, whatever the call
+\* a single-target call that raises leaves the whole tree as it was (a batched rebind may have applied earlier entries)
+RejectedMeansUnchanged ==
+  [][(out'.k \in {"IndexError", "ValueError", "TypeError", "KeyError"} /\ act'[1] # "Rebind") => UNCHANGED tree]_vars
 SealedFrozen ==
   [][\A n \in Nodes : (Protected(n) /\ kind'[n] # "free") => (ditems'[n] = ditems[n] /\ litems'[n] = litems[n])]_vars
 \* sealing is deep: seal(b) leaves every descendant with flag b
@@ -791,7 +833,7 @@ StP == [kind |-> kind', ditems |-> ditems', litems |-> litems', parent |-> paren
 RECURSIVE PlainEq(_,_,_,_)
 PlainEq(s1, a, s2, b) ==
   /\ s1.kind[a] = s2.kind[b]
-  /\ IF s1.kind[a] = "list"
+  /\ IF IsList(s1, a)
      THEN /\ Len(s1.litems[a]) = Len(s2.litems[b])
           /\ \A i \in 1..Len(s1.litems[a]) :
                 LET x == s1.litems[a][i]  y == s2.litems[b][i] IN
